@@ -508,8 +508,10 @@ func init() {
 				}
 			}
 		}
-		for _, s := range stringBoundary {
-			for _, sep := range []string{",", "", "ab", "c", "\xff", "語", ",,"} {
+		// separators and texts made of white space: a blank is a separator like any other
+		blankTexts := []string{"a b", "a  b", " a b ", "", " ", "   ", "a\tb c", "a \n b", "\t", "a b\t", "word", " x", "x ", "a　b"}
+		for _, s := range append(append([]string{}, stringBoundary...), blankTexts...) {
+			for _, sep := range []string{",", "", "ab", "c", "\xff", "語", ",,", " ", "  ", "\t", "\n", " \t", "-", ".", "|", "\\", "a"} {
 				r, err, ok := call("splitString", []any{s, sep})
 				if ok && err == nil {
 					want := mySplit(s, sep)
